@@ -475,7 +475,10 @@ func (vr *variableResolver) resolve(ctx *ExecutionContext) (*Value, error) {
 						}
 					}
 
-					if pv.IsNil() {
+					if pv.IsNil() && fnArg.Kind() != reflect.Interface {
+						// a typed nil (e.g. a nil *T for a *T parameter): the zero value of the parameter's type
+						parameters = append(parameters, reflect.Zero(fnArg))
+					} else if pv.IsNil() {
 						// Workaround to present an interface nil as reflect.Value
 						var empty any = nil
 						parameters = append(parameters, reflect.ValueOf(&empty).Elem())
@@ -514,9 +517,13 @@ func (vr *variableResolver) resolve(ctx *ExecutionContext) (*Value, error) {
 			if rv.Type() != typeOfValuePtr {
 				current = reflect.ValueOf(rv.Interface())
 			} else {
-				// Return the function call value
-				current = rv.Interface().(*Value).val
-				isSafe = rv.Interface().(*Value).safe
+				// Return the function call value (a nil *Value is nil)
+				result := rv.Interface().(*Value)
+				if result == nil {
+					return AsValue(nil), nil
+				}
+				current = result.val
+				isSafe = result.safe
 			}
 		}
 
@@ -536,7 +543,12 @@ func exportedFieldByName(st reflect.Value, name string) reflect.Value {
 	if !ok || f.PkgPath != "" {
 		return reflect.Value{}
 	}
-	return st.FieldByIndex(f.Index)
+	// (a field promoted through a nil embedded pointer does not exist)
+	field, err := st.FieldByIndexErr(f.Index)
+	if err != nil {
+		return reflect.Value{}
+	}
+	return field
 }
 
 func (vr *variableResolver) Evaluate(ctx *ExecutionContext) (*Value, *Error) {
